@@ -104,8 +104,16 @@ func VerifH_IncludeTrace() {
 	var cur []refFrame
 	var tracers []directive.IncludeTracer
 	var snaps [][]refFrame
+	lastWasTracer := false
 	for i := 0; i < k; i++ {
-		switch verifrt.Choice("op", 3) {
+		op := verifrt.Choice("op", 3)
+		// histories that repeat a shorter one are skipped: Pop on the empty stack does nothing, and a second
+		// tracer right after a tracer sees the very same stack (covered by "directive-twice" below)
+		if (op == 1 && len(cur) == 0) || (op == 2 && lastWasTracer) {
+			verifrt.Stop()
+		}
+		lastWasTracer = op == 2
+		switch op {
 		case 0:
 			f := verifrt.Choice("f", verifrt.Bound("F"))
 			at := 2 * verifrt.Choice("at", 3) // offsets 0, 2, 4: lines 1, 2, 3
@@ -174,4 +182,97 @@ func VerifH_IncludeTrace() {
 	check("live", je, cur)
 	verifrt.Reach("C02.trace.two-tracers-same-file", len(tracers) >= 2 && len(snaps[0]) > 0 && len(snaps[1]) > 0)
 	verifrt.Reach("C02.trace.nested", len(cur) >= 2)
+}
+
+// VerifH_IncludeTraceTree (C02d, "same file included from several places, several
+// files from one place, nesting depth"): the scan of a project is walked as the
+// scanner walks it - a directive read in the current file asks for its tracer, an
+// INCLUDE pushes the current file with the position of the INCLUDE, scans the
+// included file, and pops. The project shape is
+//
+//	a.jst: [D] INCLUDE x1 [D] INCLUDE x2 [D]        (two INCLUDEs on different lines)
+//	x1 = b.jst: [D] [INCLUDE d.jst [D]]
+//	x2 = b.jst again or c.jst: [D] INCLUDE d.jst [D]
+//	d.jst: D
+//
+// with every [..] part optional and every INCLUDE line symbolic. The trace each
+// directive's tracer adds to an error is exactly the chain of INCLUDEs that is
+// really open when the directive is read.
+func VerifH_IncludeTraceTree() {
+	ss := verifScanners()
+	st := &Stack{}
+	var cur []refFrame
+	var tracers []directive.IncludeTracer
+	var snaps [][]refFrame
+	d := func() {
+		if verifrt.Choice("directive", 2) == 1 {
+			tracers = append(tracers, st.ToDirectiveIncludeTracer())
+			snaps = append(snaps, append([]refFrame(nil), cur...))
+		}
+	}
+	include := func(from, at int, body func()) {
+		err := st.Push(ss[from], bytes.Index(at))
+		verifrt.Assert("C08.stack.push-ok", err == nil)
+		cur = append(cur, refFrame{from, at})
+		body()
+		verifrt.Assert("C08.stack.pop-top", st.Pop() == ss[from])
+		cur = cur[:len(cur)-1]
+	}
+	leaf := func() {
+		tracers = append(tracers, st.ToDirectiveIncludeTracer())
+		snaps = append(snaps, append([]refFrame(nil), cur...))
+	}
+	l1 := 2 * verifrt.Choice("l1", 2)        // line 1 or 2
+	l2 := l1 + 2*(1+verifrt.Choice("l2", 2)) // a later line
+	verifrt.Assume(l2 <= 4)
+	x2 := 1 + verifrt.Choice("x2", 2) // b.jst again, or c.jst
+	d()
+	include(0, l1, func() { // a.jst includes b.jst
+		d()
+		if verifrt.Choice("b-includes-d", 2) == 1 {
+			include(1, 2*verifrt.Choice("l4", 3), leaf)
+			d()
+		}
+	})
+	d()
+	include(0, l2, func() { // a.jst includes x2
+		d()
+		include(x2, 2*verifrt.Choice("l3", 3), leaf)
+		d()
+	})
+	d()
+	check := func(id string, je *jerr.JApiError, want []refFrame) {
+		paths, lines := jerr.VerifTrace(je)
+		verifrt.Assert("C02.tree."+id+".len", len(paths) == len(want))
+		if len(paths) != len(want) {
+			return
+		}
+		for j := range want {
+			w := want[len(want)-1-j] // innermost first
+			verifrt.Assert("C02.tree."+id+".file", paths[j] == verifFileNames[w.file])
+			verifrt.Assert("C02.tree."+id+".line", lines[j] == verifLineOf(w.at))
+		}
+	}
+	errFile := fs.NewFile("/p/x.jst", "x")
+	for i, tr := range tracers {
+		pattern := "first-tracer-for-this-includer"
+		for j := 0; j < i; j++ {
+			if len(snaps[j]) > 0 && len(snaps[i]) > 0 && snaps[j][len(snaps[j])-1].file == snaps[i][len(snaps[i])-1].file {
+				same := len(snaps[j]) == len(snaps[i])
+				for x := 0; same && x < len(snaps[i]); x++ {
+					if snaps[j][x] != snaps[i][x] {
+						same = false
+					}
+				}
+				if !same {
+					pattern = "tracer-after-earlier-tracer-from-same-includer-with-different-stack"
+				}
+			}
+		}
+		verifrt.Note("pattern", pattern)
+		je := jerr.NewJApiError("m", errFile, 0)
+		tr.AddIncludeTraceToError(je)
+		check("directive", je, snaps[i])
+	}
+	verifrt.Reach("C02.tree.depth-two", len(tracers) >= 1)
 }
